@@ -32,6 +32,7 @@ def body(led):
             KC.run(led, model, fname, ['Nxx', 'Nyy', 'Nxy'], prestress_form(model), y1y2=y, cone_alt=False,
                    replay=replays.panel_matrix('kG0', model, y))
     py_panel.check_calc_kG0(led, replay=replays.panel_matrix('kG0', 'plate', False))
+    py_panel.check_calc_kG0_state(led)
     from . import c03_num
     c03_num.body(led)
     ok, _ = K.compare(real('Nxx') * 2, real('Nxx'))
